@@ -15,7 +15,8 @@ MONOIDS = {0: "sum (identity 0)", 1: "product (identity 1)", 2: "max (identity m
            4: "bitwise and (identity -1)", 5: "set union = bitmask or (identity 0)"}
 MODES = {0: "preloaded closed buffered input, real scheduler",
          1: "synctest bubble, unbuffered input, one send per Wait (round-robin over the parked workers)",
-         2: "unbuffered input fed by a yielding producer goroutine, real scheduler"}
+         2: "unbuffered input fed by a yielding producer goroutine, real scheduler",
+         3: "volume: 1..N preloaded, many workers really in parallel (GOMAXPROCS 4..16)"}
 RULE = ("the real fork.Fold, pipe.Fold and a plain loop are run for each of six coded commutative monoids (sum, product, max, min, "
         "bitwise and, bitmask or: identities 0, 1, min-int, max-int, -1, 0) x par in {1,2,3,4,7} x input length 0..12 (so also empty "
         "and shorter than par) x three ways of feeding the input (preloaded/free-running, synctest round-robin, yielding producer) x "
@@ -87,8 +88,17 @@ def run_harness(ctx, tier=None, only=None):
     rc, so, se = vlib.sh2([exe, "-test.run", "^TestC10$", "-test.timeout", "20m"], cwd=d, env=env, timeout=1500)
     if rc != 0:
         raise vlib.HarnessError("harness failed (rc %d): %s" % (rc, (so + se)[-1500:]))
+    cases = []
     with open(outp) as f:
-        return [json.loads(l) for l in f if l.strip()]
+        for l in f:
+            if not l.strip():
+                continue
+            o = json.loads(l)
+            if "volume_stats" in o:
+                ctx.notes["volume_rounds"] = o["volume_stats"]   # 1..N with N = 2000 / 200000, really parallel workers, judged in Go
+                continue
+            cases.append(o)
+    return cases
 
 
 def run_impl(ctx, tier=None):
@@ -97,14 +107,15 @@ def run_impl(ctx, tier=None):
 
 def to_coq(c):
     return "mk %s %s %s %s %s %s %s %s %s" % (
-        vlib.nlit(c["monoid"]), vlib.nlit(c["par"]), vlib.nlit(c["mode"]), vlib.zlist(c["input"]),
+        vlib.nlit(c["monoid"]), vlib.nlit(c["par"]), vlib.nlit(c["mode"]),
+        ("(List.map Z.of_nat (List.seq 1 (N.to_nat %d)))" % c["n"]) if c.get("n") else vlib.zlist(c["input"]),
         vlib.zlist(c["observed"]), vlib.blit(c["closed"]), vlib.zlist(c["pfold"]), vlib.blit(c["pclosed"]), vlib.zlit(c["loop"]))
 
 
 def nontrivial_key(c):
     if not c["input"] and c["monoid"] in (0, 5):
         return None
-    return (c["monoid"], c["par"], c["mode"], tuple(c["input"]))
+    return (c["monoid"], c["par"], c["mode"], tuple(c["input"]), c.get("n", 0))
 
 
 def signature(c):
@@ -113,7 +124,7 @@ def signature(c):
 
 def describe(c):
     return {"call": "fork.Fold(ctx, par=%d, in, m) with m = %s; input fed as: %s" % (c["par"], MONOIDS[c["monoid"]], MODES[c["mode"]]),
-            "input": c["input"],
+            "input": ("1..%d" % c["n"]) if c.get("n") else c["input"],
             "observed": {"fork.Fold delivered": c["observed"], "then closed": c["closed"], "pipe.Fold delivered": c["pfold"]},
             "required": "exactly one value = left fold of the input = %s (plain loop in Go), then the channel closes" % c["loop"]}
 
